@@ -214,7 +214,8 @@ def _mk_call(sim, stacks, ev, res):
             ca = st.cas[ev['ca']]
             st.call(('ca_stop', sim.now, ev['ca']), lambda: ca.stop())
         elif op == 'probe':
-            sim.trace.append((sim.now, -1, 'probe', tuple(0 if x.tables_empty() else 1 for x in stacks), tuple(x.job_state() for x in stacks)))
+            sim.trace.append((sim.now, -1, 'probe', tuple(0 if x.tables_empty() else 1 for x in stacks), tuple(x.job_state() for x in stacks),
+                              tuple(0 if x.tables_empty(sessions_only=True) else 1 for x in stacks)))
         elif op == 'off_bus':
             st.on_bus = False
         elif op == 'on_bus':
